@@ -257,7 +257,7 @@ class RunResult:
         self.late_events = []     # trace events produced by letting the loop run on
 
 
-def run(b, external_cancel_at=None, settle=50.0, again=False, on_second_run=lambda: None):
+def run(b, external_cancel_at=None, settle=50.0, again=0, on_second_run=lambda k: None):
     """run the top scheduler on the virtual loop; then let the loop run on for `settle` virtual
     seconds to observe late activity (C11)."""
     loop = b.loop
@@ -282,14 +282,16 @@ def run(b, external_cancel_at=None, settle=50.0, again=False, on_second_run=lamb
             except Exception as exc:
                 rr.exc = exc
         one_run()
-        if again and rr.hang is None and not [t for t in asyncio.all_tasks(loop) if not t.done()]:
-            # "any run of any scheduler": the same tree run a second time (PureScheduler._reset_tasks exists
-            # for that); the oracles then judge the second run only
+        for k in range(int(again)):
+            if rr.hang is not None or [t for t in asyncio.all_tasks(loop) if not t.done()]:
+                break
+            # "any run of any scheduler": the same tree run again (PureScheduler._reset_tasks exists for that),
+            # possibly edited in between; the oracles judge the last run only
             try:
                 loop.run_until_complete(asyncio.sleep(5))
             except Hang:
                 pass
-            on_second_run()
+            on_second_run(k)
             one_run()
         rr.end_vt = loop.time()
         n0 = len(b.trace.events)
